@@ -495,6 +495,22 @@ def _run_geom_history(case):
         if obs.shape != ref.shape or np.abs(obs - ref).max() > 1e-11 * sc:
             v.append(viol("geometry_after_query", f"{et}: after read-only queries {done} and a translation there and back, measure/centroid/moments "
                                                   f"changed by {np.abs(obs - ref).max():.3e}", elemType=et, ops="+".join(done), stage="roundtrip"))
+    # ... and after the nodes are re-coordinated by a non-isometric map (a stretch with shear): measures, centroid and moments are those of
+    # a mesh built directly on the new nodes
+    if not v:
+        B = np.eye(3)
+        B[:d, :d] = np.diag([2.0, 3.0, 1.5][:d]) + 0.25 * np.triu(np.ones((d, d)), 1)
+        c = np.array([0.3, -0.2, 0.1])
+        c[d:] = 0.0
+        zm2 = zm.mapped(B, c)
+        mesh.coord = zm2.coords.copy()
+        obs = _observe_geom(mesh, d)
+        ref2 = _observe_geom(zm2.build(), d)
+        ntr += 1
+        sc2 = max(1.0, np.abs(ref2).max())
+        if obs.shape != ref2.shape or np.abs(obs - ref2).max() > 1e-11 * sc2:
+            v.append(viol("geometry_after_query", f"{et}: after read-only queries {done} and a re-coordination of the nodes (stretch), measure/centroid/moments differ from those "
+                                                  f"of a mesh built on the new nodes by {np.abs(obs - ref2).max():.3e}", elemType=et, ops="+".join(done), stage="stretch"))
     # the exact values too
     if "measure" in zm.exact and abs(ref[0] - zm.exact["measure"]) > 1e-11 * zm.exact["measure"]:
         v.append(viol("measure", f"{zm.name}: measure {ref[0]!r} exact {zm.exact['measure']!r}", elemType=et, k=0, distort=False, map="generic"))
